@@ -13,8 +13,6 @@ package verify
 //@   ensures[len] len(r) == len(a) && r != nil
 //@   ensures[and] forall i :: 0 <= i && i < len(a) ==> r[i] == a[i] & b[i]
 //@   fresh r
-//@   loop 0: invariant 0 <= i && i <= len(a) && len(data) == len(a)
-//@   loop 0: invariant forall j :: 0 <= j && j < i ==> data[j] == a[j] & b[j]
 
 // SGX components of the platform (from the PCK certificate) against a level
 //@ opaque define cpuGE(p, comps) = len(p) == len(comps) && (forall i :: 0 <= i && i < len(p) ==> p[i] >= comps[i].Svn)
